@@ -79,10 +79,10 @@ pub fn stages(property: &str, tier: &str, scale: f64) -> Vec<Stage> {
             Stage { name: "pipeline write-error", arm_id: 8, kind: StageKind::WriteErr, runs: n(200_000) },
             // seed-independent supplement: the complete value space of the small widths
             if scale >= 1.0 {
-                Stage { name: "exhaustive: all values of widths 0..13 bits", arm_id: 9, kind: StageKind::SmallValues, runs: gen::small_values_len() }
+                Stage { name: "exhaustive: all values of the small widths", arm_id: 9, kind: StageKind::SmallValues, runs: gen::small_values_len() }
             } else {
                 // scaled-down batches (Miri slice, self-tests) only take a prefix of the space
-                Stage { name: "prefix of: all values of widths 0..13 bits", arm_id: 9, kind: StageKind::SmallValues, runs: ((gen::small_values_len() as f64) * scale) as u64 }
+                Stage { name: "prefix of: all values of the small widths", arm_id: 9, kind: StageKind::SmallValues, runs: ((gen::small_values_len() as f64) * scale) as u64 }
             },
         ],
         "C17" => vec![
@@ -91,11 +91,11 @@ pub fn stages(property: &str, tier: &str, scale: f64) -> Vec<Stage> {
             Stage { name: "single-fault sweep", arm_id: 4, kind: StageKind::Sweep, runs: n(3_000) },
             // seed-independent supplement: every input of at most 1 (quick) / 2 (thorough) bytes
             if scale < 1.0 {
-                Stage { name: "prefix of: all inputs of <= 1 byte, widths 0..13 bits", arm_id: 10, kind: StageKind::ShortInputs(1), runs: ((gen::short_inputs_len(1) as f64) * scale) as u64 }
+                Stage { name: "prefix of: all inputs of <= 1 byte, the small widths", arm_id: 10, kind: StageKind::ShortInputs(1), runs: ((gen::short_inputs_len(1) as f64) * scale) as u64 }
             } else if tier == "thorough" {
-                Stage { name: "exhaustive: all inputs of <= 2 bytes, widths 0..13 bits", arm_id: 10, kind: StageKind::ShortInputs(2), runs: gen::short_inputs_len(2) }
+                Stage { name: "exhaustive: all inputs of <= 2 bytes, the small widths", arm_id: 10, kind: StageKind::ShortInputs(2), runs: gen::short_inputs_len(2) }
             } else {
-                Stage { name: "exhaustive: all inputs of <= 1 byte, widths 0..13 bits", arm_id: 10, kind: StageKind::ShortInputs(1), runs: gen::short_inputs_len(1) }
+                Stage { name: "exhaustive: all inputs of <= 1 byte, the small widths", arm_id: 10, kind: StageKind::ShortInputs(1), runs: gen::short_inputs_len(1) }
             },
         ],
         "C04" => vec![
